@@ -1,0 +1,35 @@
+//go:build verif
+// +build verif
+
+package decoder
+
+import (
+	"fmt"
+	"sync"
+	"sync/atomic"
+)
+
+// Verification hook, compiled in with -tags verif only: every use of a slot of the address-indexed
+// decoder cache is announced with the type pointer it is used for; a slot that was first used for one
+// type must never serve another. A violation panics with the prefix "VERIF-HOOK:".
+
+var (
+	verifMu         sync.Mutex
+	verifSlotOwner  = map[uintptr]uintptr{}
+	VerifSlotChecks uint64
+	VerifSlotsOwned uint64
+)
+
+func VerifDecoderSlot(index uintptr, typeptr uintptr) {
+	atomic.AddUint64(&VerifSlotChecks, 1)
+	verifMu.Lock()
+	owner, ok := verifSlotOwner[index]
+	if !ok {
+		verifSlotOwner[index] = typeptr
+		atomic.AddUint64(&VerifSlotsOwned, 1)
+	}
+	verifMu.Unlock()
+	if ok && owner != typeptr {
+		panic(fmt.Sprintf("VERIF-HOOK: decoder cache slot %d first used for type %#x is now used for type %#x", index, owner, typeptr))
+	}
+}
